@@ -627,7 +627,9 @@ func genG03(repo string, w *Out) error {
 			// (http.DefaultMaxHeaderBytes + 4096 per head): no effect on heads below that limit
 			crSize = 4096
 			limited = true
-		case strings.HasPrefix(c.src, "bufio.NewReaderSize(conn, "):
+		case strings.HasPrefix(c.src, "bufio.NewReaderSize(conn, "),
+			strings.HasPrefix(c.src, "bufio.NewReaderSize(lr, ") && strings.Contains(pc.Src(npc.Body), "lr := &io.LimitedReader{R: conn, N: math.MaxInt64}"):
+			limited = strings.HasPrefix(c.src, "bufio.NewReaderSize(lr, ")
 			ast.Inspect(npc.Body, func(x ast.Node) bool {
 				if ce, ok := x.(*ast.CallExpr); ok && pc.Src(ce.Fun) == "bufio.NewReaderSize" && len(ce.Args) == 2 {
 					if v, e := g03EvalInt(pc, ce.Args[1]); e == nil {
